@@ -12,7 +12,7 @@ LEVEL = "exploration"
 TECHNIQUE = "model-based generation of lifecycle histories (hold-out split, reveal/mask/unmask/save/load/CLI) with the parent screen's name->id functions as reference and a prediction differential"
 RULE = (
     "parent: arity-2 screen, 4..24 rows, >=2 unobserved plates, few rows per sample/condition so that some sample or (treatment,dose) lives only in "
-    "held-out rows; split by create_plate_balanced_holdout_set_among_masked_plates (or create_random_holdout, or the prepare_retrospective_simulation CLI) with drawn fraction/seed; history of 1..8 operations on the training "
+    "held-out rows (in 3 of 5 cases the names are prefixes / case variants of each other: s1, s10, s100 ...); split by create_plate_balanced_holdout_set_among_masked_plates (or create_random_holdout, or the prepare_retrospective_simulation CLI) with drawn fraction/seed; history of 1..8 operations on the training "
     "and test screens from {reveal(any unobserved ids, any order), mask, unmask, save+load, reveal_plate CLI}; half of the saves go to a path that already holds the archive of another prepared simulation (same names, same table shapes, ids reversed). After each step: name->id functions and both "
     "mappings equal the parent's, predictions of a posterior sample sized by the parent's space equal those computed with the parent's ids. Non-trivial = "
     "history has >=1 reveal/mask/unmask on a stage whose rows do not cover the parent's mapping. distinct = distinct case JSON."
@@ -57,6 +57,9 @@ def _case(draw):
         # 1 in 5: the prepared simulation comes from the prepare_retrospective_simulation CLI (its internal parent is not
         # observable, so the reference is the pair (training, test) it wrote: both must share one encoding)
         "via_cli": draw(st.integers(0, 4)) == 0,
+        # names that are prefixes / longer variants of each other (s1, s10, s100 ...), so that name widths differ between the rows of a
+        # stage and the parent's tables
+        "names": draw(st.sampled_from([None, None, "prefix", "prefix", "case"])),
         "random_split": draw(st.integers(0, 3)) == 0,
     }
 
@@ -106,6 +109,11 @@ def check_case(case):
     from batchie.retrospective import create_plate_balanced_holdout_set_among_masked_plates, mask_screen, reveal_plates, unmask_screen
 
     sc = case["screen"]
+    if case.get("names"):
+        pools = {"prefix": ["1", "10", "2", "100", "11", "3", "1000", "20"], "case": ["a", "A", "aa", "Aa", "b", "B", "ab", "aB"]}[case["names"]]
+        off = case["seed"] % len(pools)
+        ren = lambda x: x if x == sc["control"] else x[0] + pools[(int(x[1:]) + off) % len(pools)] + ("" if int(x[1:]) < len(pools) else x[1:])
+        sc = dict(sc, rows=[dict(r, s=ren(r["s"]), t=[ren(t) for t in r["t"]]) for r in sc["rows"]])
     parent = S.build_screen(sc)
     pf_s, pf_t = _functions(parent)
     p_tm, p_sm = parent.treatment_mapping, parent.sample_mapping
